@@ -276,11 +276,16 @@ theorem go_octal_aux (fuel : Nat) (d0 d1 d2 c : UInt8) (rest acc : Bytes)
   have e2 : (d0 == DQUOTE) = false := beq_false_of_toNat_ne _ _ (by rw [h0]; show _ ≠ 34; omega)
   have e3 : (d0 == 110) = false := beq_false_of_toNat_ne _ _ (by rw [h0]; show _ ≠ 110; omega)
   have e4 : (d0 == 116) = false := beq_false_of_toNat_ne _ _ (by rw [h0]; show _ ≠ 116; omega)
+  have e5 : (d0 == 97) = false := beq_false_of_toNat_ne _ _ (by rw [h0]; show _ ≠ 97; omega)
+  have e6 : (d0 == 98) = false := beq_false_of_toNat_ne _ _ (by rw [h0]; show _ ≠ 98; omega)
+  have e7 : (d0 == 102) = false := beq_false_of_toNat_ne _ _ (by rw [h0]; show _ ≠ 102; omega)
+  have e8 : (d0 == 114) = false := beq_false_of_toNat_ne _ _ (by rw [h0]; show _ ≠ 114; omega)
+  have e9 : (d0 == 118) = false := beq_false_of_toNat_ne _ _ (by rw [h0]; show _ ≠ 118; omega)
   have o0 : isOctal d0 = true := isOctal_of_toNat _ (by omega) (by omega)
   have o1 : isOctal d1 = true := isOctal_of_toNat _ (by omega) (by omega)
   have o2 : isOctal d2 = true := isOctal_of_toNat _ (by omega) (by omega)
   rw [parseQuotedGo]
-  simp only [a1, a2, e0, e1, e2, e3, e4, o0, o1, o2, if_true, if_false, Bool.false_eq_true]
+  simp only [a1, a2, e0, e1, e2, e3, e4, e5, e6, e7, e8, e9, o0, o1, o2, if_true, if_false, Bool.false_eq_true]
   have : UInt8.ofNat ((((d0.toNat - 48) * 8 + (d1.toNat - 48)) * 8 + (d2.toNat - 48)) % 256) = c := by
     have : (((d0.toNat - 48) * 8 + (d1.toNat - 48)) * 8 + (d2.toNat - 48)) % 256 = c.toNat := by
       rw [h0, h1, h2]; omega
